@@ -1,6 +1,7 @@
 package c10
 
 import (
+	"encoding/base64"
 	"encoding/json"
 	"fmt"
 	"sort"
@@ -8,6 +9,7 @@ import (
 	"sync/atomic"
 	"testing"
 	"time"
+	"unicode/utf8"
 
 	"github.com/flant/shell-operator/pkg/hook/config"
 	"gopkg.in/yaml.v3"
@@ -21,6 +23,42 @@ import (
 type Case struct {
 	D      hcfg.D `json:"d"`
 	Mutant string `json:"mutant,omitempty"` // "" = valid document
+	// NearKey: for the unknown-*-field mutants, an unknown key derived from a documented one ("" = a fixed unrelated key)
+	NearKey string `json:"near_key,omitempty"`
+}
+
+// documented keys per object kind (from the v1 schema); a near-miss of one of them is an unknown field
+var knownKeys = map[string][]string{
+	"top":        {"configVersion", "onStartup", "schedule", "kubernetes", "kubernetesValidating", "kubernetesMutating", "kubernetesCustomResourceConversion", "settings"},
+	"schedule":   {"name", "crontab", "allowFailure", "includeSnapshotsFrom", "queue", "group"},
+	"kubernetes": {"name", "apiVersion", "kind", "includeSnapshotsFrom", "queue", "jqFilter", "keepFullObjectsInMemory", "allowFailure", "executeHookOnSynchronization", "waitForSynchronization", "resynchronizationPeriod", "nameSelector", "labelSelector", "fieldSelector", "group", "namespace", "watchEvent", "executeHookOnEvent"},
+	"validating": {"name", "group", "includeSnapshotsFrom", "failurePolicy", "sideEffects", "timeoutSeconds", "matchConditions", "labelSelector", "namespace", "rules"},
+}
+
+func nearMiss(t *rapid.T, kind string) string {
+	keys := knownKeys[kind]
+	k := rapid.SampledFrom(keys).Draw(t, "nearOf")
+	var out string
+	switch rapid.IntRange(0, 4).Draw(t, "nearHow") {
+	case 0:
+		out = k + "s"
+	case 1:
+		out = "x" + k
+	case 2:
+		out = strings.ToUpper(k[:1]) + k[1:]
+	case 3:
+		out = k[:len(k)-1]
+	default:
+		out = k + "_"
+	}
+	for _, all := range knownKeys {
+		for _, x := range all {
+			if x == out {
+				return ""
+			}
+		}
+	}
+	return out
 }
 
 var crontabs = []string{"* * * * *", "*/5 * * * *", "0 12 * * 1", "30 4 1 * *", "*/10 * * * * *", "@hourly"}
@@ -206,6 +244,9 @@ func gen(t *rapid.T) Case {
 	c := Case{D: genD(t)}
 	if rapid.Bool().Draw(t, "mutate") {
 		c.Mutant = rapid.SampledFrom(mutants).Draw(t, "mutant")
+		if strings.HasPrefix(c.Mutant, "unknown-") && rapid.Bool().Draw(t, "near") {
+			c.NearKey = nearMiss(t, strings.TrimSuffix(strings.TrimPrefix(c.Mutant, "unknown-"), "-field"))
+		}
 	}
 	return c
 }
@@ -220,28 +261,51 @@ func first(m map[string]any, key string) (map[string]any, bool) {
 }
 
 // mutate applies a single fault to the rendered document; ok=false when the document has no place for it.
-func mutate(m map[string]any, mutant string) bool {
+// setUnknown adds an unknown key to an object: the fixed unrelated one, or the near-miss of a documented key
+// carrying a value that would be valid for the documented key.
+func setUnknown(obj map[string]any, near, fixed string, fixedVal any) {
+	if near == "" {
+		obj[fixed] = fixedVal
+		return
+	}
+	for k, v := range obj {
+		if strings.EqualFold(strings.Trim(near, "xs_"), strings.Trim(k, "xs_")) || strings.HasPrefix(k, near) || strings.HasPrefix(near, k) {
+			obj[near] = kit.DeepCopyJSON(v)
+			return
+		}
+	}
+	switch {
+	case strings.Contains(strings.ToLower(near), "event"):
+		obj[near] = []any{"Added"}
+	case strings.Contains(strings.ToLower(near), "allowfailure"), strings.Contains(strings.ToLower(near), "synchronization"), strings.Contains(strings.ToLower(near), "keepfull"):
+		obj[near] = true
+	default:
+		obj[near] = "x"
+	}
+}
+
+func mutate(m map[string]any, mutant string, near string) bool {
 	switch mutant {
 	case "unknown-top-field":
-		m["onShutdown"] = 1.0
+		setUnknown(m, near, "onShutdown", 1.0)
 	case "unknown-schedule-field":
 		s, ok := first(m, "schedule")
 		if !ok {
 			return false
 		}
-		s["timezone"] = "UTC"
+		setUnknown(s, near, "timezone", "UTC")
 	case "unknown-kubernetes-field":
 		k, ok := first(m, "kubernetes")
 		if !ok {
 			return false
 		}
-		k["watch"] = true
+		setUnknown(k, near, "watch", true)
 	case "unknown-validating-field":
 		v, ok := first(m, "kubernetesValidating")
 		if !ok {
 			return false
 		}
-		v["url"] = "https://x"
+		setUnknown(v, near, "url", "https://x")
 	case "onStartup-string":
 		m["onStartup"] = "first"
 	case "schedule-object":
@@ -604,7 +668,7 @@ func runCase(c Case) (ev.Info, error) {
 		}
 	}
 	if c.Mutant != "" {
-		if !mutate(doc, c.Mutant) {
+		if !mutate(doc, c.Mutant, c.NearKey) {
 			info.Labels = append(info.Labels, "mutant-not-applicable")
 			return info, nil
 		}
@@ -665,7 +729,24 @@ func TestConfig(t *testing.T) {
 // ---------- arbitrary bytes ----------
 
 type BytesCase struct {
-	Text string `json:"text"`
+	Text string `json:"text,omitempty"`
+	// B64 carries inputs that are not valid UTF-8 (JSON strings cannot hold them faithfully)
+	B64 string `json:"b64,omitempty"`
+}
+
+func mkBytes(b []byte) BytesCase {
+	if utf8.Valid(b) {
+		return BytesCase{Text: string(b)}
+	}
+	return BytesCase{B64: base64.StdEncoding.EncodeToString(b)}
+}
+
+func (c BytesCase) bytes() []byte {
+	if c.B64 != "" {
+		b, _ := base64.StdEncoding.DecodeString(c.B64)
+		return b
+	}
+	return []byte(c.Text)
 }
 
 var tokens = []string{"configVersion", "v1", "v0", ":", " ", "\n", "- ", "{", "}", "[", "]", ",", "\"", "onStartup", "schedule", "kubernetes", "crontab", "* * * * *", "kind", "Pod", "name", "includeSnapshotsFrom", "group", "queue", "null", "true", "1", "-1", "1e999", "*/0 * * * *", "0", "/", "-", "*", "settings", "executionMinInterval", "executionBurst", "kubernetesValidating", "rules", "&a", "*a", "!!binary", "|", ">", "---", "\t", "jqFilter", "namespace", "nameSelector", "matchNames", "labelSelector", "matchExpressions", "operator", "In", "values", "onKubernetesEvent", "event", "add"}
@@ -673,14 +754,14 @@ var tokens = []string{"configVersion", "v1", "v0", ":", " ", "\n", "- ", "{", "}
 func genBytes(t *rapid.T) BytesCase {
 	switch rapid.IntRange(0, 2).Draw(t, "mode") {
 	case 0:
-		return BytesCase{Text: string(rapid.SliceOfN(rapid.Byte(), 0, 200).Draw(t, "bytes"))}
+		return mkBytes(rapid.SliceOfN(rapid.Byte(), 0, 200).Draw(t, "bytes"))
 	case 1:
 		n := rapid.IntRange(1, 40).Draw(t, "n")
 		var sb strings.Builder
 		for i := 0; i < n; i++ {
 			sb.WriteString(rapid.SampledFrom(tokens).Draw(t, "tok"))
 		}
-		return BytesCase{Text: sb.String()}
+		return mkBytes([]byte(sb.String()))
 	default:
 		// token-level mutation of a valid document
 		d := genD(t)
@@ -701,27 +782,28 @@ func genBytes(t *rapid.T) BytesCase {
 				b = append(b[:pos], append([]byte(tok), b[pos:]...)...)
 			}
 		}
-		return BytesCase{Text: string(b)}
+		return mkBytes(b)
 	}
 }
 
 func runBytes(c BytesCase) (ev.Info, error) {
 	info := ev.Info{}
-	cfg, err := load([]byte(c.Text))
+	text := c.bytes()
+	cfg, err := load(text)
 	if err != nil && (strings.HasPrefix(err.Error(), "PANIC") || strings.HasPrefix(err.Error(), "HANG")) {
-		return info, fmt.Errorf("LoadAndValidate does not end cleanly on %q: %v", c.Text, err)
+		return info, fmt.Errorf("LoadAndValidate does not end cleanly on %q: %v", text, err)
 	}
 	if err == nil {
 		info.Labels = append(info.Labels, "loaded")
 		if cfg.Version != "v0" && cfg.Version != "v1" {
-			return info, fmt.Errorf("loaded a configuration with version %q from %q", cfg.Version, c.Text)
+			return info, fmt.Errorf("loaded a configuration with version %q from %q", cfg.Version, text)
 		}
 		// a loaded configuration must be usable: summarizing it touches every pointer the operator later follows
 		_ = summarize(cfg)
 		info.NonTrivial = true
 	} else {
 		info.Labels = append(info.Labels, "rejected")
-		info.NonTrivial = len(c.Text) > 8
+		info.NonTrivial = len(text) > 8
 	}
 	return info, nil
 }
@@ -730,4 +812,17 @@ const ruleBytes = "arbitrary byte strings (random bytes, random sequences of con
 
 func TestBytes(t *testing.T) {
 	ev.Main(t, ev.Spec[BytesCase]{Property: "C10", Part: "bytes", Rule: ruleBytes, Gen: genBytes, Run: runBytes, Journal: true})
+}
+
+// FuzzBytes is the coverage-guided companion of TestBytes (thorough tier): same oracle, bytes chosen by the
+// native fuzzer starting from rendered valid documents and the token list.
+func FuzzBytes(f *testing.F) {
+	seeds := [][]byte{[]byte(`{"configVersion":"v1","onStartup":1}`), []byte("configVersion: v1\nschedule:\n- name: s\n  crontab: '* * * * *'\n"),
+		[]byte(`{"configVersion":"v1","kubernetes":[{"name":"k","kind":"Pod","executeHookOnEvent":["Added"],"jqFilter":".a","namespace":{"nameSelector":{"matchNames":["d"]}},"group":"g","queue":"q"}],"schedule":[{"crontab":"*/5 * * * *","group":"g","includeSnapshotsFrom":["k"]}],"settings":{"executionMinInterval":"3s","executionBurst":1}}`),
+		[]byte(`{"onStartup":1,"onKubernetesEvent":[{"kind":"pod","event":["add"]}],"schedule":[{"crontab":"* * * * *"}]}`),
+		[]byte(`{"configVersion":"v1","kubernetesValidating":[{"name":"v.example.com","rules":[{"operations":["CREATE"],"apiGroups":[""],"apiVersions":["v1"],"resources":["pods"]}]}],"kubernetesCustomResourceConversion":[{"name":"c","crdName":"a.b.c","conversions":[{"fromVersion":"v1","toVersion":"v2"}]}]}`)}
+	for _, tk := range tokens {
+		seeds = append(seeds, []byte(tk))
+	}
+	ev.Fuzz(f, ev.Spec[BytesCase]{Property: "C10", Part: "bytes", Rule: ruleBytes, Run: runBytes}, mkBytes, seeds)
 }
